@@ -11,7 +11,7 @@ echo "== baseline tests on changed tree"; /verif/tools/baseline.sh $WT; RCB=$?
 git checkout -q -- .
 echo "demo clean rc=$RC0 mutated rc=$RC1 baseline rc=$RCB"
 if [ $RC0 -ne 0 ] || [ $RC1 -eq 0 ] || [ $RCB -ne 0 ]; then echo "SEED REJECTED"; exit 1; fi
-D=/verif/seeded/$P-$M; mkdir -p $D; cp $SD/patch.diff $SD/demo.py $D/; cp $SD/meta.json $D/meta.agent.json
+D=/verif/seeded/$P-${TAG:-}$M; mkdir -p $D; cp $SD/patch.diff $SD/demo.py $D/; cp $SD/meta.json $D/meta.agent.json
 echo "== check against the change (applied to /repo, reverted afterwards)"
 cd /repo && git apply $D/patch.diff || { echo "PATCH DOES NOT APPLY TO /repo"; exit 9; }
 cd /verif && timeout 3000 ./check $P --tier quick > $D/check_quick.log 2>&1; RCC=$?
